@@ -945,7 +945,7 @@ def log_call(
 
         # Filter arguments to log, if necessary:
         if include_args is not None:
-            callargs = {k: callargs[k] for k in include_args}
+            callargs = {k: callargs[k] for k in include_args if k in callargs}
 
         # The arguments are handed over as a dictionary, not as keyword
         # arguments: their names may coincide with start_action()'s own
